@@ -67,6 +67,31 @@ class FalsyRecorder(Recorder):
         return 0
 
 
+class ReentrantRecorder(Recorder):
+    """A callback that uses the lattice it is labelling: it asks for another (default) export, looks
+    members up and walks a traversal before it answers.  The export that called it is unaffected."""
+
+    lattice = None
+
+    def __call__(self, names):
+        lat = self.lattice
+        if lat is not None and len(self.calls) % 5 == 0:
+            self.lattice = None             # no re-entry from the inner export (bounds the depth)
+            try:
+                with core.monitor_code():   # the inner export is not what is judged here
+                    inner = lat.graphviz()
+                    inner.node('c0', color='blue')
+                    lat[0], lat[-1], list(lat[0].upset())[:3], lat.join([lat[0], lat[-1]])
+                COL.count('callbacks_that_reentered_the_lattice')
+            except core.CaseTimeout:
+                raise
+            except Exception:
+                COL.count('reentrant_callback_inner_call_raised')
+            finally:
+                self.lattice = lat
+        return super().__call__(names)
+
+
 _UNSET = object()
 
 
@@ -430,6 +455,10 @@ def run_case(concepts, case, spec):
     call(lat.graphviz, None, None, False, False, Recorder('W'), Recorder('Y'))     # documented positional order
     kk = hash(gen.table_key(case))
     call(lat.graphviz, make_object_label=shaped(Recorder('A'), kk), make_property_label=shaped(Recorder('B'), kk // 7))
+    ro, rp = ReentrantRecorder('N'), ReentrantRecorder('Z')
+    ro.lattice = rp.lattice = lat
+    call(lat.graphviz, make_object_label=ro, make_property_label=rp)
+    ro.lattice = rp.lattice = None
     call(lat.graphviz, make_object_label=Recorder('Q'))
     call(lat.graphviz, make_property_label=Recorder('R'))
     call(lat.graphviz)
